@@ -18,6 +18,7 @@ import BctVerif.Props.CoresWalks
 import BctVerif.Props.CoresMod
 import BctVerif.Props.CoresSynth
 import BctVerif.Props.CoresNbs
+import BctVerif.Props.CoresNull
 
 /-!
 # T-gen for core update steps — the link theorems in one place
@@ -42,6 +43,7 @@ modules imported here prove, once and for all extracted values, what a passed ob
 | walks (C18) | `Model/CoreIRWalks.lean` (expressions of `Model/CoreIRClust.lean`) | `CoresWalks`: `pre_spec`, `tail_spec`, `link_pagerank`, `link_pagerank_model`, `solve_diag_unique`, `link_mfpt_model` | `Walks.colDeg`, `prMat`, `prior`, `solves`, `pagerank`; `Walks.transition`, `fundArg`, `isInvOf`, `mfpt` |
 | modq (C02, C07) | `Model/CoreIRMod.lean` (expressions of `Model/CoreIRClust.lean`), `Model/CoreIRPin.lean` | `CoresMod`: `link_mod_und`, `link_mod_dir` (the other routines of the family are source pins without link theorems) | `Modularity.modularityUndGiven`, `modularityDirGiven` |
 | synth (C20) | `Model/CoreIRSynth.lean`, `Model/CoreIRPin.lean` | `CoresSynth`: `triu_diff`, `step_spec`, `loop_spec`, `removeI_spec`, `link_makeringlattice`; `sliceSet_fill`, `fill_fold`, `fillI_eq`, `drawSw_eq`, `accept_spec`, `repair_spec`, `placeAll_spec`, `link_degreesfixed` | `Synth.superDiag`, `band`, `ringFill`, `removeExcess`, `ringLattice`; `Synth.stubs`, `fitTo`, `drawUntried`, `applySwitch`, `repair`, `placeEdge`, `placeAll`, `degreesFixed` |
+| nullm (C06) | `Model/CoreIRNull.lean`, `Model/CoreIRPin.lean` | `CoresNull`: `innerLoop_spec`, `roundI_spec`, `loopI_spec`, `signI_spec`, `link_null`, `link_null_und`, `link_null_dir` (the four correlations at the end and the callees `randmio_*_signed` are source pins) | `Signed.dealRound`, `dealLoop`, `dealSign`, `writeAsg`, `cellsWhere`, `sortedWeights`, `nullModel` |
 | nbs (C19) | `Model/CoreIRNbs.lean`, `Model/CoreIRPin.lean` | `CoresNbs`: `varOr_cast`, `ss_cast`, `ssd_eq_pairedSS`, `runT2_spec`, `runPair_spec`, `link_tstat` (numbers read as reals, `Real.sqrt`; the rest of `nbs_bct` is a source pin) | `Nbs.exceeds2`, `exceedsP`, `exceeds` (`pooledV`, `pairedSS`, `gtSqrt`, `tnum`) |
 | clust (C09) | `Model/CoreIRClust.lean` | `CoresClust`: `perNode_cell`, `link_cc_bd`, `link_cc_wd`, `link_cc_wu`, `link_cc_bu`, `link_trans_bd`, `link_trans_bu`, `link_trans_wd`, `link_trans_wu` | `Cluster.ccBd`, `ccWd`, `ccWu`, `ccBu`, `transBd`, `transBu`, `transWd`, `transWu` (`perNode`, `gdiv`, `ccFagiolo`, `transFagiolo`) |
 | reach (C03) | `Model/CoreIRReach.lean` | `CoresReach`: `step_spec`, `rec_spec`, `link_reachdist` | `Dist.reachStep`, `reachGo`, `reachOutCell`, `reachdist` |
